@@ -205,6 +205,9 @@ struct ShapeBounds {
     one_extra_max_missing: usize,
     /// two extras in both relative orders (x1 before x2 and x2 before x1)
     two_extras_both_orders: bool,
+    /// SerializeRow structs: every field name (not only the first) offered a second time at every position,
+    /// and a third time / two different names twice at every position pair (a named bind marker may repeat)
+    repeat_every_field: bool,
     /// retype variants on every permutation (else identity + reverse only)
     retype_all_perms: bool,
 }
@@ -237,9 +240,17 @@ fn shapes_model(m: &rb::Model, b: &ShapeBounds) -> Vec<Vec<DbField>> {
             extras1.push(DbField { name: flipped, ..f0.clone() });
         }
     }
-    // a second database field carrying the name of the first declared field (documentation silent: no panic)
-    if let Some(f0) = fields.first() {
-        extras1.push(f0.clone());
+    // a second database field carrying the name of the first declared field (documentation silent: no panic);
+    // for SerializeRow structs every field (flattened and renamed ones included), see ShapeBounds
+    for f in fields.iter().take(if b.repeat_every_field { fields.len() } else { 1 }) {
+        extras1.push(f.clone());
+    }
+    let mut repeat_pairs: Vec<(DbField, DbField)> = Vec::new();
+    if b.repeat_every_field {
+        for (i, f) in fields.iter().enumerate() {
+            repeat_pairs.push((f.clone(), f.clone())); // the name three times
+            repeat_pairs.push((f.clone(), fields[(i + 1) % fields.len()].clone())); // two names twice
+        }
     }
     let x2 = DbField::leaf("x2", fields.last().map(|f| f.kind).filter(|k| *k != Kind::Udt).unwrap_or(Kind::Text));
     let mut out: Vec<Vec<DbField>> = Vec::new();
@@ -268,6 +279,34 @@ fn shapes_model(m: &rb::Model, b: &ShapeBounds) -> Vec<Vec<DbField>> {
                                 let mut s = base.clone();
                                 s.insert(p, x.clone());
                                 push(s, &mut out);
+                            }
+                        }
+                    }
+                    2 if missing == 0 && !repeat_pairs.is_empty() && (b.retype_all_perms || perm.iter().enumerate().all(|(k, &i)| i == k) || perm.iter().enumerate().all(|(k, &i)| i == kept.len() - 1 - k)) => {
+                        // repeated names (every permutation for small structs, declared + reversed order otherwise)
+                        for (first, second) in &repeat_pairs {
+                            for p in 0..=base.len() {
+                                for q in p..=base.len() {
+                                    let mut s = base.clone();
+                                    s.insert(q, second.clone());
+                                    s.insert(p, first.clone());
+                                    push(s, &mut out);
+                                }
+                            }
+                        }
+                        if missing <= b.two_extras_max_missing {
+                            for p in 0..=base.len() {
+                                for q in p..=base.len() {
+                                    for (k, (first, second)) in [(&x1, &x2), (&x2, &x1)].into_iter().enumerate() {
+                                        if k == 1 && !b.two_extras_both_orders {
+                                            continue;
+                                        }
+                                        let mut s = base.clone();
+                                        s.insert(q, second.clone());
+                                        s.insert(p, first.clone());
+                                        push(s, &mut out);
+                                    }
+                                }
                             }
                         }
                     }
@@ -590,6 +629,7 @@ fn shape_block(r: &Ctx, e: &Entry, op: Op, db: &[DbField], b: &Bounds) {
     let dir = if op.is_ser() { rb::Dir::Ser } else { rb::Dir::De };
     let shape_rejected = if op.is_ser() { rb::bind_names(m, db, op.target(), dir).verdict == Verdict::MustReject } else { rb::bind(m, db, op.target(), dir).verdict == Verdict::MustReject };
     // repeated database names: only "no panic" is asserted, two null patterns are enough
+    // (`repeated` is false for SerializeRow, where a repeated bind marker is a case of its own)
     let shape_rejected = shape_rejected || rb::bind_names(m, db, op.target(), dir).repeated;
     if shape_rejected {
         t.add(format!("{}|shapes-rejected-by-reference-or-repeated-name", op.name()), 1);
@@ -767,6 +807,7 @@ fn main() {
                 shape: ShapeBounds {
                     one_extra_max_missing: n,
                     two_extras_both_orders: thorough || n < 6,
+                    repeat_every_field: e.ser_row.is_some(),
                     two_extras_max_missing: if thorough { n } else if n <= 4 { n } else { 1 },
                     retype_all_perms: thorough || n <= 4,
                 },
@@ -810,7 +851,7 @@ fn main() {
     if outcome_classes < 8 {
         vcore::machinery_error("C16 harness collided on too few outcome classes");
     }
-    r.set_rule("E-ENUM. Per family struct and derive: every subset of its fields missing x every permutation of the rest x {0, 1 extra at every position, 2 extras at every position pair (quick: >4-field structs get 2 extras only with <=1 field missing, 6-field structs only in the order x1,x2)} + one field retyped + Rust-name-instead-of-rename / name-of-a-skipped-field / a repeated name as extra; serialization x 2|4 value rows x every null pattern of Option fields (quick: null patterns with the first value row) (+ round trip through the struct's own deserializer); deserialization x 2|4 value rows x null patterns of database cells (quick: <=2 nulls or all null, first 6 positions; thorough: every pattern of the first 8 positions) + every UDT truncation point. Oracle cqlref::binder from the attribute documentation. distinct_nontrivial = cases whose database list differs from the declared field list.");
+    r.set_rule("E-ENUM. Per family struct and derive: every subset of its fields missing x every permutation of the rest x {0, 1 extra at every position, 2 extras at every position pair (quick: >4-field structs get 2 extras only with <=1 field missing, 6-field structs only in the order x1,x2)} + one field retyped + Rust-name-instead-of-rename / name-of-a-skipped-field / a repeated name as extra (SerializeRow structs: every field name 2 and 3 times and two names twice, at every position, flattened and renamed fields included - a named bind marker may occur repeatedly; if accepted, every occurrence must carry the field's value and no cell may be missing); serialization x 2|4 value rows x every null pattern of Option fields (quick: null patterns with the first value row) (+ round trip through the struct's own deserializer); deserialization x 2|4 value rows x null patterns of database cells (quick: <=2 nulls or all null, first 6 positions; thorough: every pattern of the first 8 positions) + every UDT truncation point. Oracle cqlref::binder from the attribute documentation. distinct_nontrivial = cases whose database list differs from the declared field list.");
     r.set_exhaustive(true);
     r.sample(json!({"struct": fam[0].source, "op": "ser-value", "db": [["c","boolean"],["a","int"],["b","text"]], "expected": "cells emitted at database positions c,a,b; read back by name"}));
     if let Some(e) = fam.iter().find(|e| e.name == "V12") {
